@@ -74,7 +74,8 @@ for _expr in OPS + FUNCS:
         # quick tier: a rotating sixth of the (template, carrier) pairs plus every arithmetic operator on numeric carriers
         _quick = (_k % 6 == 0) or (_expr in OPS[:7] and _cn in ('int_int', 'dec_dec', 'dbl_int', 'int_dec'))
         _hunt = _cn in ('dbl_int', 'dec_dec', 'int_dec', 'str_int')     # Decimal/float/str->int paths realise: bug-hunting only
-        define(_SRC.format(tier='quick' if _quick else 'thorough', kind='hunt' if _hunt else 'main', budget=45 if _hunt else 300, name=_name, sig=_sig, pre=_pre, expr=_expr, ea=_ea, eb=_eb,
+        _hunt = _hunt or (_expr == '$a div $b' and _cn == 'int_int')    # integer div yields xs:decimal: the Decimal model keeps forking (not exhausted in 300 s)
+        define(_SRC.format(tier='quick' if _quick else 'thorough', kind='hunt' if _hunt else 'main', budget=45 if _hunt else 150, name=_name, sig=_sig, pre=_pre, expr=_expr, ea=_ea, eb=_eb,
                            bound='%s with %s' % (_expr, _what)), globals())
 
 
